@@ -49,6 +49,22 @@ func TestC17WriteCorpus(t *testing.T) {
 			os.WriteFile(filepath.Join(d, fmt.Sprintf("gen-%02d", n)), b, 0o644)
 			n++
 		}
+		// the template-directive family: samples whose container suits this syntax
+		dg := rapid.Custom(func(rt *rapid.T) Case { return genDirectiveCase(rt) })
+		nd := 0
+		for i := 0; nd < 60 && i < 3000; i++ {
+			dc := dg.Example(i)
+			if kindFor(dc.Entry) != k || len(dc.Src) < 4 {
+				continue
+			}
+			os.WriteFile(filepath.Join(d, fmt.Sprintf("dir-%02d", nd)), dc.Src, 0o644)
+			nd++
+		}
+		if k == "template" {
+			for i, s := range dirSnippets {
+				os.WriteFile(filepath.Join(d, fmt.Sprintf("dirsnip-%02d", i)), []byte("a"+s+"b"), 0o644)
+			}
+		}
 		for i, s := range hand[kind] {
 			os.WriteFile(filepath.Join(d, fmt.Sprintf("hand-%02d", i)), []byte(s), 0o644)
 		}
